@@ -169,11 +169,7 @@ Definition prop_case (c : case) : bool :=
       end
   end.
 
-Definition known_class (c : case) : N :=
-  match c with
-  | CRun m _ _ _ _ _ _ _ _ _ _ => if known_nonatomic m then 1 else 0
-  | CRead _ _ _ _ _ _ _ => 0
-  end.
+Definition known_class (c : case) : N := 0.
 
 (** path tag: run kind, pager mode bit, and how the call ended *)
 Definition ending (t : trace) : N :=
